@@ -172,8 +172,10 @@ CLAIMS: dict[str, tuple[str, str, str, str]] = {
         "processDelimiters is modelled statement by statement (openersBottom, jumps, headerIdx, rule of 3) and tied call by call to the "
         "real function; for every delimiter array with unset ends, whatever the markers, run lengths and open/close flags, the pairs it "
         "forms are ordered (i < end[i]) and never cross (the invariant gives the jumps array its meaning: a jump from an index outside "
-        "every pair never lands strictly inside one). MISSING: that emphasis/strikethrough postProcess turn exactly those pairs into "
-        "open/close tokens (not modelled); and K5 for the remaining block/inline rules (monitored). Both are decided by the oracle: the property's predicate on every stream, recursively, "
+        "every pair never lands strictly inside one). Emphasis is modelled end to end (scanDelims with T1 classification tables, tokenize, "
+        "balance_pairs, _postProcess; tie: `inline`) and emini_wellformed (Props/C02f.lean) proves for every source, rule subset with "
+        "emphasis on, maxNesting and character classification that the inline stream is levelled from 0, balanced, and builds a tree. "
+        "MISSING: tag agreement of the two tokens of a pair in stack order at the token level, strikethrough/link/image; and K5 for the remaining block/inline rules (monitored). Both are decided by the oracle: the property's predicate on every stream, recursively, "
         "incl. a bounded-exhaustive delimiter sweep. Known finding K-C02-1 (parseInline wrapper not flagged block, "
         "pinned by a test).",
         NOTE,
@@ -199,7 +201,8 @@ CLAIMS: dict[str, tuple[str, str, str, str]] = {
         "code/fence/blockquote/hr/list/heading/paragraph with quotes and lists nested in each other to any depth (tie: "
         "`lblock`, 3.5k/100k documents). On the inline side the contracts are relative to pos < posMax <= len(src) and proved for "
         "text, newline, escape and backticks (closer cache and whole-source search included), giving imini_total for that inline "
-        "sub-parser under every rule subset (Props/C01e.lean; tie: `inline`). "
+        "sub-parser under every rule subset (Props/C01e.lean; tie: `inline`); emini_total (Props/C01f.lean) adds the emphasis rule with "
+        "balance_pairs and its post-processing, for every classification of punctuation and white space. "
         "MISSING: for the other rules (table, reference, html_block, lheading, most inline rules) the "
         "contracts stay hypotheses, monitored on every "
         "call of every real rule (harness/monitor.py, ~47k rule calls per quick run); renderer/CLI totality "
